@@ -322,6 +322,94 @@ func C16(r *h.Run) {
 			}
 		}
 	}
+	// The same option VALUES applied in several lists (what generated constructors and
+	// shared option variables do): sub-lists, reorderings and repetitions of one set of
+	// built options; each application must compose exactly its own list.
+	runShared := func(side string, forest []*optNode, lists [][]int) {
+		log := &evlog{}
+		client := strings.HasPrefix(side, "client")
+		copts := make([]connect.ClientOption, len(forest))
+		hopts := make([]connect.HandlerOption, len(forest))
+		for i, n := range forest {
+			copts[i], hopts[i] = n.build(log, client)
+		}
+		for _, idx := range lists {
+			var flat []int
+			var items []string
+			var cl []connect.ClientOption
+			var hl []connect.HandlerOption
+			for _, i := range idx {
+				forest[i].flat(&flat)
+				items = append(items, forest[i].coq())
+				if client {
+					cl = append(cl, copts[i])
+				} else {
+					hl = append(hl, hopts[i])
+				}
+			}
+			coqForest := h.CoqList(items)
+			log.mu.Lock()
+			log.ev = nil
+			log.mu.Unlock()
+			mux := http.NewServeMux()
+			mux.Handle("/verif.Svc/Unary", connect.NewUnaryHandler("/verif.Svc/Unary",
+				func(_ context.Context, req *connect.Request[bv]) (*connect.Response[bv], error) {
+					return connect.NewResponse(&bv{Value: req.Msg.Value}), nil
+				}, hl...))
+			var callErr error
+			if p := safely(func() {
+				c := connect.NewClient[bv, bv](&h.LocalClient{Handler: mux}, "http://verif.local/verif.Svc/Unary", cl...)
+				_, callErr = c.CallUnary(context.Background(), connect.NewRequest(&bv{Value: []byte("x")}))
+			}); p != nil || callErr != nil {
+				r.Fail(h.Failure{Key: "interceptors/panic", Family: "shared_options", What: fmt.Sprint("panic or failed call: ", p, callErr), Input: coqForest})
+				continue
+			}
+			enter := filterLog(log.ev, "enter")
+			r.Eval("shared_options", side+coqForest+fmt.Sprint(idx))
+			r.Sample("shared_options", map[string]any{"side": side, "applied_list": coqForest, "positions_in_the_shared_set": idx, "enter_order": enter})
+			if !intsEq(enter, flat) {
+				r.Fail(h.Failure{Key: "interceptors/order", Family: "shared_options", What: "option values shared between several clients / handlers: this application did not compose exactly its own list",
+					Input: map[string]any{"side": side, "applied_list": coqForest, "positions_in_the_shared_set": idx, "applied_after": "the preceding lists of the same run"}, Expected: flat, Actual: enter})
+			}
+		}
+	}
+	for si, side := range []string{"client_unary", "handler_unary"} {
+		for k := 0; k < r.N(6, 40); k++ {
+			n := 2 + rng.Intn(4)
+			ids := make([]int, n)
+			for j := range ids {
+				ids[j] = j + 1
+				if rng.Intn(6) == 0 {
+					ids[j] = 0
+				}
+			}
+			var forest []*optNode
+			for start := 0; start < n; {
+				end := start + 1 + rng.Intn(2)
+				if end > n {
+					end = n
+				}
+				forest = append(forest, &optNode{kind: 0, ids: ids[start:end]})
+				start = end
+			}
+			m := len(forest)
+			lists := [][]int{{m - 1}, {0, m - 1}, {m - 1, 0}, {m - 1, m - 1}}
+			all := make([]int, m)
+			for i := range all {
+				all[i] = i
+			}
+			lists = append(lists, all, []int{0})
+			for x := 0; x < 3; x++ {
+				var l []int
+				for y := 0; y < 1+rng.Intn(4); y++ {
+					l = append(l, rng.Intn(m))
+				}
+				lists = append(lists, l)
+			}
+			runShared(side, forest, lists)
+			_ = si
+		}
+	}
 	sides := []string{"client_unary", "client_stream", "handler_unary", "handler_stream"}
 	// exhaustive small space: n <= maxN, every nil mask (n<=3), every composition into consecutive groups
 	maxN := r.N(4, 5)
